@@ -6,9 +6,9 @@ import poolb1
 import propbase
 
 ID = "C04"
-MODULE = "HttpcoreModel.Props.C04"
+MODULE = "HttpcoreModel.Props.C04Threads"      # imports Props.C04 (and C08 for the lock table)
 THEOREMS = [f"Httpcore.C04.{n}" for n in ("pass_bound_adversarial", "pass_bound", "wait_not_open", "create_only_with_room",
-                                           "cleanupAdv_len", "assignAllAdv_len")]
+                                           "cleanupAdv_len", "assignAllAdv_len", "passes_are_serialised")]
 TRUSTED = [
     "Lean 4.33 kernel; axioms per theorem under coverage.theorems",
     "hand-written model Pool.pass of _assign_requests_to_connections, tied by lock-step execution on the real pool with stub connections (this run)",
@@ -54,6 +54,22 @@ def run(ctx, driver):
     concur.explore(ctx, rec, ID, {"p_fault": 0.1, "p_cancel": 0.1, "gate_close": True, "p_conn_close": 0.3}, 60, 6000, ["C04:"])
     concur.explore(ctx, rec, ID, {"p_fault": 0.1, "p_cancel": 0.05, "http2": True, "max_connections": 1, "p_conn_close": 0.0, "callers": 4},
                    30, 3000, ["C04:"])
+    # the synchronous pool under real threads (controlled scheduler of C08): len(pool._connections) <= N at every pre-emption point
+    import c08run
+    for i in range((100 if ctx.quick else 3000) * (8 if ctx.broken else 1)):
+        cfg = c08run.gen_cfg(rng)
+        cfg.update(http2=False, p_faulty=0.0, max_connections=rng.choice([1, 1, 2]), threads=rng.choice([2, 3, 4]), switch_prob=rng.choice([0.2, 0.5]))
+        seed = rng.randrange(1 << 30)
+        r = c08run.run_one(cfg, seed)
+        rec.evals += 1
+        rec.distinct.add(("threads", repr(sorted(cfg.items())), seed))
+        rec.dist["threads:schedules"] += 1
+        for clause, d in r["violations"]:
+            rec.dist["threads:" + clause] += 1
+            if clause == "C08:connection-limit-exceeded":
+                rec.fail("C04:limit-exceeded-under-threads", {"proto": "h1"},
+                         {"cfg": cfg, "seed": seed, "detail": {k: (v if isinstance(v, (int, str, list, dict)) else repr(v)) for k, v in d.items()},
+                          "how_to_replay": "c08run.run_one(cfg, seed)"})
     return rec.finish("C04/B1 pool pass + concurrent schedules",
                       "random pools: max 1-4, keep-alive 0-3/None, 0..max stub connections with status bits from 9 classes (idle, active, "
                       "available, closed, expired, odd combinations), 0-4 requests over 4 origins, some pre-assigned; one pass each on the real "
